@@ -19,7 +19,7 @@ func init() {
 		Name:  "HEAP",
 		Doc:   "Dijkstra: heap index bookkeeping, relaxation pairing, visited guard, initialisation, result extraction; path reconstruction",
 		Run:   runHeap,
-		Floor: map[string]int{"HEAP-H0": 1, "HEAP-H1": 2, "HEAP-H2": 1, "HEAP-H3": 3, "HEAP-H4": 3, "HEAP-H5": 2, "HEAP-H6": 1, "HEAP-PATH": 3},
+		Floor: map[string]int{"HEAP-H0": 1, "HEAP-H1": 2, "HEAP-H2": 1, "HEAP-H3": 3, "HEAP-H4": 3, "HEAP-H5": 2, "HEAP-H6": 1, "HEAP-H7": 1, "HEAP-PATH": 3},
 	})
 }
 
@@ -291,6 +291,31 @@ func runHeap(c *Ctx) {
 	c.R.Add("HEAP-H4", "init|infinity", name, p.Pos(dj.Pos()), infOK, "every item starts at a distance no smaller than MaxInt32", fmt.Sprintf("ok=%v", infOK))
 	c.R.Add("HEAP-H4", "init|source-zero", name, p.Pos(dj.Pos()), srcOK, "the source item (looked up by hashcode(src)) is set to 0 before heap.Init", fmt.Sprintf("ok=%v", srcOK))
 	c.R.Add("HEAP-H4", "init|heap-init-before-pop", name, p.InstrPos(inits[0]), initA != popA && core.InstrDominates(initA, popA) || (initA == popA && inits[0].Parent() == pop.Parent() && core.InstrDominates(inits[0], pop)), "heap.Init dominates the first heap.Pop", "")
+
+	// H7: the distance arithmetic is signed. The graph package documents non-negative weights, but its one client puts a
+	// negative weight (the matching-name discount) on edges; in an unsigned type 0 + (-1) wraps to "infinity" and the
+	// discounted edge out of a distance-0 vertex is never relaxed.
+	{
+		unsignedAt := ""
+		nd := 0
+		for _, st := range append(append([]*ssa.Store{}, initStores...), func() []*ssa.Store {
+			var out []*ssa.Store
+			for _, r := range relax {
+				out = append(out, r.st)
+			}
+			return out
+		}()...) {
+			if b, ok := st.Val.Type().Underlying().(*types.Basic); ok && b.Info()&types.IsInteger != 0 {
+				nd++
+				if b.Info()&types.IsUnsigned != 0 {
+					unsignedAt = p.InstrPos(st) + " (" + b.Name() + ")"
+				}
+			}
+		}
+		c.R.Add("HEAP-H7", "distance-is-signed", name, p.Pos(dj.Pos()), nd > 0 && unsignedAt == "",
+			"tentative distances are kept in a signed integer type (a negative edge weight — the matching-name discount — must lower a distance, not wrap it)",
+			ternary(unsignedAt == "", fmt.Sprintf("%d distance stores, all signed", nd), "unsigned distance stored at "+unsignedAt))
+	}
 
 	if len(relax) == 0 {
 		c.R.Undecided("HEAP-H2", "relax", name, "-", "no relaxation store to the distance field found after heap.Init")
